@@ -2567,7 +2567,8 @@ class ProvDocument(ProvBundle):
             if hasattr(source, "read"):
                 return serializer.deserialize(source, **args)
             else:
-                with open(source) as f:
+                # files are written as UTF-8 bytes whatever the locale is
+                with open(source, "rb") as f:
                     return serializer.deserialize(f, **args)
 
 
